@@ -183,6 +183,12 @@ class Interp:
                 raise NotEvaluable("unpacking")
             for el, x in zip(t.elts, v):
                 self._store(el, x, env)
+        elif isinstance(t, ast.Subscript) and self.tensors and isinstance(t.value, ast.Name) and isinstance(env.get(t.value.id), list):
+            i_ = self.eval(t.slice, env)
+            try:
+                env[t.value.id][int(i_)] = v  # (an item of a Python list: `shape[dim] = X`)
+            except (IndexError, TypeError, ValueError):
+                raise NotEvaluable("list item store")
         elif isinstance(t, ast.Subscript) and self.tensors and isinstance(t.value, ast.Name):
             # X[idx] = v on an exact tensor: the name is re-bound to an updated copy
             import numpy as np
@@ -224,6 +230,10 @@ class Interp:
         if True:
             if isinstance(st, ast.Assign) and self.tensors and isinstance(st.value, ast.List) and len(st.targets) == 1 and isinstance(st.targets[0], ast.Name):
                 env[st.targets[0].id] = [self.eval(el, env) for el in st.value.elts]  # a Python list (`parts = [first]` ... `parts.append(x)`)
+            elif isinstance(st, ast.Assign) and self.tensors and isinstance(st.value, ast.BinOp) and isinstance(st.value.op, ast.Mult) \
+                    and isinstance(st.value.left, ast.List) and len(st.targets) == 1 and isinstance(st.targets[0], ast.Name):
+                k_ = self.eval(st.value.right, env)
+                env[st.targets[0].id] = [self.eval(el, env) for el in st.value.left.elts] * int(k_)  # `shape = [1] * D`
             elif isinstance(st, ast.Assign):
                 v = self.eval(st.value, env)
                 for t in st.targets:
